@@ -4,6 +4,8 @@
 UNITS = [
     {'name': 'bitvec.core', 'backend': 'verus', 'tier': 'quick'},
     {'name': 'bitvec.iter', 'backend': 'verus', 'tier': 'quick'},
+    {'name': 'rank9', 'backend': 'verus', 'tier': 'quick'},
+    {'name': 'shard_edge', 'backend': 'verus', 'tier': 'quick'},
     {'name': 'bfv.core@u64', 'backend': 'verus', 'tier': 'quick'},
     {'name': 'bfv.core@usize', 'backend': 'verus', 'tier': 'quick'},
     {'name': 'bfv.core@u8', 'backend': 'verus', 'tier': 'quick'},
